@@ -33,6 +33,25 @@ EXCEPTIONS = {
 }
 
 
+def exception_site(fb, f, it):
+    """the exception for function `f` also covers a private helper that did not exist when the table was frozen and that only `f`
+    calls (the code was moved out of `f` by an `extract function` refactor); R16-4 still pins what the arm may do"""
+    if it.path == f:
+        return True
+    from ..symex import known_functions
+    if it.path.split("@")[0] in known_functions() or it.kind not in ("Fn", "AssocFn"):
+        return False
+    callers = set()
+    for p2, it2 in fb.items.items():
+        if it2.kind not in ("Fn", "AssocFn", "Closure") or p2 == it.path:
+            continue
+        for b in it2.blocks:
+            t = b["term"]
+            if t["k"] == "call" and (t.get("resolved") or t.get("callee") or "") == it.path:
+                callers.add(p2.split("::{closure")[0])
+    return bool(callers) and callers <= {f}
+
+
 def is_result_ty(ty):
     return ty.startswith("std::result::Result<") or ty.startswith("core::result::Result<")
 
@@ -142,7 +161,7 @@ def check_fn(ctx, fb, it, stats):
                 continue
             if p.kind == "return" and failure_value(rv, terms):
                 continue
-            exc = [r for (f, rx), r in EXCEPTIONS.items() if f == it.path and re.search(rx, culprit[0][1])]
+            exc = [r for (f, rx), r in EXCEPTIONS.items() if exception_site(fb, f, it) and re.search(rx, culprit[0][1])]
             key = "%s|%s fails" % (it.path, re.sub(r"@.*", "", culprit[0][1])[-60:])
             if exc:
                 if p.kind == "return" and any(contains(rv, t) for t in terms if t != culprit[0]):
